@@ -12,8 +12,8 @@ open Dec
 
 /-- `SetParams`: both durations must be non-negative -/
 def setParams (p : Params) : M Unit := do
-  if p.rewardDelay < 0 then throwE "invalid_duration"
-  if p.takeRateInterval < 0 then throwE "invalid_duration"
+  guardE (p.rewardDelay < 0) "invalid_duration"
+  guardE (p.takeRateInterval < 0) "invalid_duration"
   modifyW fun w => { w with params := p }
 
 def setLastRewardClaimTime (t : Time) : M Unit := do
@@ -37,19 +37,25 @@ def setSnapshot (a : Asset) (val : AVal) : M Unit :=
     let snap : Snapshot := { prevWeight := a.weight, hist := histFilterByAlliance val.info.hist a.denom }
     { w with snaps := AL.set w.snaps (a.denom, val.id, w.height) snap }
 
+/-- on a weight change every validator's pending rewards are indexed at the OLD weight and a snapshot is taken,
+    before the new weight is written; then a rebalance is queued (`UpdateAllianceAsset` l.55-78) -/
+def settleAllValidators (asset : Asset) (weightChanged : Bool) (vals : List (ValId × ValInfo)) : M Unit :=
+  if weightChanged then do
+    forEachM (fun (kv : ValId × ValInfo) => do
+      let validator ← getAllianceValidator kv.1
+      let validator ← claimValidatorRewards validator
+      setSnapshot asset validator) vals
+    queueRebalance
+  else pure ()
+
 /-- `UpdateAllianceAsset` -/
 def updateAllianceAsset (newAsset : Asset) : M Unit := do
   let w ← getW
   match getAsset w newAsset.denom with
   | none => throwE "unknown_asset"
   | some asset =>
-    if newAsset.wmin > newAsset.weight ∨ newAsset.wmax < newAsset.weight then throwE "weight_out_of_bound"
-    if newAsset.weight ≠ asset.weight then do
-      forEachM (fun (kv : ValId × ValInfo) => do
-        let validator ← getAllianceValidator kv.1
-        let validator ← claimValidatorRewards validator
-        setSnapshot asset validator) w.vals
-      queueRebalance
+    guardE (newAsset.wmin > newAsset.weight ∨ newAsset.wmax < newAsset.weight) "weight_out_of_bound"
+    settleAllValidators asset (decide (newAsset.weight ≠ asset.weight)) w.vals
     let w ← getW
     let lastChange : Time :=
       if (newAsset.changeRate ≠ asset.changeRate ∨ newAsset.changeIntv ≠ asset.changeIntv) ∧
@@ -87,24 +93,26 @@ def intervalsSince (now last : Time) (interval : Dur) : Int := (now - last).tdiv
 /-- `DeductAssetsWithTakeRate`; returns the updated in-memory asset list -/
 def deductAssetsWithTakeRate (lastClaim : Time) (assets : List Asset) : M (List Asset) := do
   let w ← getW
-  if lastClaim = zeroTime then
+  if lastClaim = zeroTime then do
     setLastRewardClaimTime w.time
-    return assets
-  let interval := w.params.takeRateInterval
-  if interval = 0 then panicE "int_div_zero"
-  let n : Int := intervalsSince w.time lastClaim interval
-  let coins : Coins := takeRateCoins w.time n.toNat assets
-  forEachM (fun (a : Asset) =>
-    if takeRateChargeable w.time a ∧ (takeRateNewTotal a n.toNat).isSome then setAsset (takeRateStep w.time n.toNat a)
-    else pure ()) assets
-  let assets' := assets.map (takeRateStep w.time n.toNat)
-  if (assets.filter (takeRateChargeable w.time)).length = 0 then
-    setLastRewardClaimTime w.time
-    return assets'
-  if coins.length ≠ 0 ∧ !Coins.isZero coins then
-    sendCoins accModule accFee coins
-    setLastRewardClaimTime (lastClaim + interval * n)
-  pure assets'
+    pure assets
+  else do
+    let interval := w.params.takeRateInterval
+    guardP (interval = 0) "int_div_zero"
+    let n : Int := intervalsSince w.time lastClaim interval
+    let coins : Coins := takeRateCoins w.time n.toNat assets
+    forEachM (fun (a : Asset) =>
+      if takeRateChargeable w.time a ∧ (takeRateNewTotal a n.toNat).isSome then setAsset (takeRateStep w.time n.toNat a)
+      else pure ()) assets
+    let assets' := assets.map (takeRateStep w.time n.toNat)
+    if (assets.filter (takeRateChargeable w.time)).length = 0 then do
+      setLastRewardClaimTime w.time
+      pure assets'
+    else if coins.length ≠ 0 ∧ !Coins.isZero coins then do
+      sendCoins accModule accFee coins
+      setLastRewardClaimTime (lastClaim + interval * n)
+      pure assets'
+    else pure assets'
 
 /-- `DeductAssetsHook` -/
 def deductAssetsHook (assets : List Asset) : M (List Asset) := do
@@ -159,12 +167,12 @@ def distrHookWithdraw (v : ValId) : M Unit := do
 
 /-- `stakingKeeper.Delegate(module, amt, Unbonded, snapshot, subtractAccount = true)` -/
 def stakingDelegate (v : ValId) (snap : SVal) (amt : Int) : M Unit := do
-  if snap.tokens = 0 ∧ snap.delShares > 0 then throwE "invalid_ex_rate"
+  guardE (snap.tokens = 0 ∧ snap.delShares > 0) "invalid_ex_rate"
   let w ← getW
   let live := (getSVal w v).getD snap
-  match live.modShares with
-  | some _ => distrHookWithdraw v
-  | none => pure ()
+  (match live.modShares with
+    | some _ => distrHookWithdraw v
+    | none => pure ())
   let pool := if snap.isBonded then accBonded else accNotBonded
   sendCoins accModule pool (Coins.single w.staking.bondDenom amt)
   let issued : Dec := if snap.delShares = 0 then ofInt amt else quoInt (mulInt snap.delShares amt) snap.tokens
@@ -184,10 +192,10 @@ def stakingValidateUnbondAmount (v : ValId) (amt : Int) : M Dec := do
     match sv.modShares with
     | none => throwE "no_delegation"
     | some ds =>
-      if sv.tokens = 0 then throwE "insufficient_shares"
+      guardE (sv.tokens = 0) "insufficient_shares"
       let shares := quoInt (mulInt sv.delShares amt) sv.tokens
       let sharesTrunc := quoTruncate (mulInt sv.delShares amt) (ofInt sv.tokens)
-      if sharesTrunc > ds then throwE "invalid_shares"
+      guardE (sharesTrunc > ds) "invalid_shares"
       pure (if shares > ds then ds else shares)
 
 /-- `stakingKeeper.Unbond(module, v, shares)` on the live validator; returns the tokens released -/
@@ -200,14 +208,14 @@ def stakingUnbond (v : ValId) (shares : Dec) : M Int := do
     | none => throwE "no_delegation"
     | some ds =>
       distrHookWithdraw v
-      if ds < shares then throwE "not_enough_shares"
+      guardE (ds < shares) "not_enough_shares"
       let ds' := ds - shares
       -- AfterDelegationModified, or BeforeDelegationRemoved when the delegation is emptied: both queue a rebalance
       queueRebalance
       let remaining := sv.delShares - shares
       let issued : Int := if remaining = 0 then sv.tokens
                           else truncateInt (quo (mulInt shares sv.tokens) sv.delShares)
-      if sv.tokens - issued < 0 then panicE "staking_negative_tokens"
+      guardP (sv.tokens - issued < 0) "staking_negative_tokens"
       setSVal v { sv with tokens := sv.tokens - issued, delShares := remaining,
                           modShares := if ds' = 0 then none else some ds' }
       pure issued
@@ -249,17 +257,20 @@ def rebalanceBondTokenWeights (assets : List Asset) : M Unit := do
         if vs > 0 ∧ bondedVS > 0 then pure (acc + mul (quo vs bondedVS) expForAsset) else pure acc) (0 : Dec)
     if expected > current then
       let bondAmt := truncateInt (expected - current)
-      if bondAmt = 0 then return ()
-      mintCoin accModule bondDenom bondAmt
-      let validator ← claimValidatorRewards validator
-      stakingDelegate validator.id validator.sval bondAmt
+      if bondAmt = 0 then pure ()
+      else do
+        mintCoin accModule bondDenom bondAmt
+        let validator ← claimValidatorRewards validator
+        stakingDelegate validator.id validator.sval bondAmt
     else if expected < current then
       let unbondAmt := truncateInt (current - expected)
-      if unbondAmt = 0 then return ()
-      let shares ← stakingValidateUnbondAmount validator.id unbondAmt
-      let _ ← claimValidatorRewards validator
-      let tokensToBurn ← stakingUnbond validator.id shares
-      burnCoin accBonded bondDenom tokensToBurn) bonded
+      if unbondAmt = 0 then pure ()
+      else do
+        let shares ← stakingValidateUnbondAmount validator.id unbondAmt
+        let _ ← claimValidatorRewards validator
+        let tokensToBurn ← stakingUnbond validator.id shares
+        burnCoin accBonded bondDenom tokensToBurn
+    else pure ()) bonded
 
 /-- `RebalanceHook` -/
 def rebalanceHook (assets : List Asset) : M Unit := do
